@@ -57,6 +57,8 @@ def run(plan):
             if o.kind != "ok":
                 res.fail(f"genuine handshake raised {o.exc_type}", repr(o.exc))
                 return
+        if plan.get("stale_ack"):
+            dev.ack_mode = "old"
         if plan.get("learn_caps"):
             # the capability report is learned first; apply() must still encode what was requested
             o = await s.do({"op": "caps"})
@@ -170,7 +172,7 @@ def run(plan):
     except (SimDeadlock, SimStepLimit) as e:
         res.fail(f"liveness: {type(e).__name__}", str(e))
     res.take(w)
-    res.key = (plan.get("mode"), plan.get("turbo_report"), bool(plan.get("int_values")), repr(plan["config"].get("caps_pages")), tuple(tuple(sorted(st.items())) for st in states))
+    res.key = (plan.get("mode"), plan.get("turbo_report"), bool(plan.get("int_values")), bool(plan.get("stale_ack")), repr(plan["config"].get("caps_pages")), tuple(tuple(sorted(st.items())) for st in states))
     res.nontrivial = True
     return res
 
@@ -240,6 +242,9 @@ def space(tier):
             p["turbo_report"] = rng.choice(["both", "b8", "b10"])
             for st in p["states"]:
                 st["target_humidity"] = min(st["target_humidity"], 100)
+        if r in (0, 3) and rng.random() < 0.4:
+            # the unit acknowledges each command with the state it had before executing it
+            p["stale_ack"] = True
         if rng.random() < 0.4:
             from .c15 import rand_record
             recs = [rand_record(rng) for _ in range(rng.randint(1, 10))]
